@@ -11,7 +11,7 @@ from vlib.core import Part, Violation, Discard, call
 
 from mitxgraders import FormulaGrader, NumericalGrader, MatrixGrader
 from mitxgraders.helpers.calc import evaluator, MathArray
-from mitxgraders.exceptions import StudentFacingError
+from mitxgraders.exceptions import StudentFacingError, MITxError
 
 mp.mp.dps = 40
 
@@ -966,3 +966,60 @@ PARTS = [
     Part('multi', 'hyp', judge, strategy=strat_multi, budget={'quick': 4000, 'thorough': 120000}),
     Part('array', 'hyp', judge, strategy=strat_array, budget={'quick': 4000, 'thorough': 120000}),
 ]
+
+
+# ----------------------------------------------------------------------------------------------------------------
+# 'history': the outcome of evaluating f(args) must not depend on which call (possibly a failing one) was evaluated
+# before it in the same process.  Added after a seeded change whose csch() switched numpy's overflow/invalid handling
+# off and only restored it on success: after csch(0) had (correctly) raised, arccosh(0.5) returned nan.  Every
+# ordered pair of the calls below runs in a forked child; the reference is the second call alone in a pristine child.
+
+from vlib.isolate import run_in_fork  # noqa: E402
+
+HISTORY_CALLS = ['csch(0)', 'csch([2])', 'cot(0)', 'ln(0)', 'log10(0)', 'exp(1000)', 'sinh(1000)', 'sech(1000)',
+                 'csch(1000)', 'arccosh(0.5)', 'arcsec(0.5)', 'arccsc(0.5)', 'arccoth(0.5)', 'arcsech(2)',
+                 'arcsin(2)', 'sqrt(-4)', 'tan(pi/2)', 'coth(0)', 'arctan2(0,0)', 'sec(0)', 'abs(-3)', 'sin(1)',
+                 'det([[1,2],[2,4]])', 'norm([1e200,1e200])', 'arctanh(1)', 'arccot(0)', 'floor(1e300)', '1/sin(0)']
+
+
+def _history_eval(expr):
+    from mitxgraders import MatrixGrader
+    from mitxgraders.helpers.calc import evaluator as _ev
+    try:
+        v = _ev(expr, {'pi': math.pi, 'e': math.e, 'i': 1j}, MatrixGrader.default_functions, {}, max_array_dim=2)[0]
+        return ('ok', repr(np.asarray(v).tolist()))
+    except MITxError as e_:
+        return ('exc', type(e_).__name__, str(e_)[:160])
+    except Exception as e_:  # noqa: BLE001
+        return ('foreign', type(e_).__name__, str(e_)[:160])
+
+
+_HISTORY_REF = {}
+
+
+def items_history(tier):
+    n = len(HISTORY_CALLS)
+    for a in range(n):
+        for b in range(n):
+            yield {'first': a, 'then': b}
+
+
+def judge_history(spec, rec):
+    a, b = HISTORY_CALLS[spec['first']], HISTORY_CALLS[spec['then']]
+    if b not in _HISTORY_REF:
+        _HISTORY_REF[b] = run_in_fork(lambda: _history_eval(b))
+    ref = _HISTORY_REF[b]
+    got = run_in_fork(lambda: (_history_eval(a), _history_eval(b))[1])
+    rec.calls(2)
+    rec.cls('history/pair')
+    rec.nontrivial(a != b)
+    if got != ref:
+        raise Violation('history/outcome-depends-on-earlier-call', 'evaluating %r gives %r after %r was evaluated, '
+                        'but %r when evaluated first in a fresh process' % (b, got, a, ref))
+    if ref[0] == 'ok' and 'nan' in ref[1]:
+        raise Violation('history/nan', '%r evaluates to nan' % b)
+    return {'first': a, 'then': b, 'outcome': ref[0]}
+
+
+PARTS.append(Part('history', 'enum', judge_history, items=items_history, exhaustive=True))
+REQUIRED['history/pair'] = 500
